@@ -29,7 +29,7 @@ PID = "C09"
 # ----------------------------------------------------------------------------- witness programs
 WITNESSES: dict[str, dict[str, str]] = {
     "generic": {
-        "a.py": "import b\nfrom b import C\nv: int = b.k()\nw = b.untyped(1)\n\ndef top(q):\n    return q\n",
+        "a.py": "import b\nfrom b import C\nfrom b import T as TT\nv: int = b.k()\nw = b.untyped(1)\n\ndef top(q):\n    return q\n",
         "b.py": (
             "from typing import Any, Optional, cast, List, Generic, TypeVar\n"
             "import missing_mod\n"
@@ -57,6 +57,13 @@ WITNESSES: dict[str, dict[str, str]] = {
             "gl = []\n"
             "def pt() -> None:\n    pl = None\n    if int():\n        pl = 1\n"
             "def cat(a: List[int]) -> None:\n    for i in a:\n        i.nope\n"
+            "def u2():\n    zz: int = ''\n"
+            "gx = None\ndef setg() -> None:\n    global gx\n    gx = 1\n"
+            "import sys\nif sys.platform == 'win32':\n    1 + ''\nelse:\n    '' + 1\n"
+            "def eqn(a: int) -> bool:\n    return a == None\n"
+            "reveal_type(opt)\n"
+            "from typing_extensions import deprecated\n@deprecated('use g2')\ndef oldf() -> None: ...\noldf()\n"
+            "def rd2() -> None:\n    q = 1\n    q = ''\n    q + 1\n"
         ),
         "builtins.pyi": "@fixtures/isinstancelist.pyi",
     },
